@@ -324,7 +324,12 @@ def annotate_function(src, m, fn, relpath, contract_only):
     if contract_only:
         # ghost updates / assertions that could not be placed: a contract that talks about ghost state
         # maintained by them cannot be trusted in the bounded fallback
-        frep['dropped_inserts'] = len(fn['inserts']) + (1 if fn['entry'] else 0) + len(fn['replaces'])
+        # (insertions that consist of reachability canaries only carry no ghost state)
+        def _ghost(lines):
+            return any(l.strip() and not re.match(r'^\s*(CQV_REACH|CQV_CANARY)\s*\(.*\)\s*;?\s*$', l) for l in lines)
+        frep['dropped_inserts'] = sum(1 for i_ in fn['inserts'] if _ghost(i_['lines'])) + \
+            (1 if fn['entry'] and _ghost(fn['entry']) else 0) + len(fn['replaces'])
+        frep['dropped_canary_inserts'] = sum(1 for i_ in fn['inserts'] if not _ghost(i_['lines']))
         return edits, frep
     if len(loops) != len(fn['loops']):
         raise Drift('%s: function %s has %d loops, overlay expects %d'
